@@ -2,7 +2,7 @@ def tiltSelect (hasRange : Bool) (tiltNone : Bool) (isModel : Bool) (tilt_model 
   let mut tilt_model : Int := tilt_model
   if (hasRange = true) then
     tilt_model := (1 : Int)
-  if (tiltNone = true) then
+  else if (tiltNone = true) then
     tilt_model := (0 : Int)
   else if (isModel = true) then
     tilt_model := (2 : Int)
